@@ -347,6 +347,8 @@ class HTTPConnection(_HTTPConnection):
             raise ValueError(
                 f"Method cannot contain non-token characters {method!r} (found at least {match.group()!r})"
             )
+        if not method:
+            raise ValueError("Method cannot be empty")
 
         return super().putrequest(
             method, url, skip_host=skip_host, skip_accept_encoding=skip_accept_encoding
